@@ -73,8 +73,8 @@ func extractSlotContent(node *html.Node) *SlotScope {
 	for c := node.FirstChild; c != nil; c = c.NextSibling {
 		if c.Type != html.ElementNode {
 			if c.Type == html.TextNode {
-				// Text nodes go to default slot unless they're only whitespace
-				if trimmedText := strings.TrimSpace(c.Data); trimmedText != "" {
+				// Text nodes go to default slot unless they're only (HTML) whitespace
+				if !isBlankText(c.Data) {
 					defaultSlotContent = append(defaultSlotContent, helpers.CloneNode(c))
 				}
 			}
